@@ -239,6 +239,63 @@ def lw(cfg):
         if not ok:
             res.find(f, f.loc, 'read_critical_section move assignment does not take over %s of the source on every path: after `rcs = lock.try_read_lock()` on an obsolete (or any other) lock the variable would still hold the previous lock and version - must_restart() is false, check() validates the OLD node and an upgrade succeeds although the lock the section was asked for is obsolete' % ' and '.join(sorted(missing)), key='LW-8:move-assign', config=cfg.name)
     res.floor('LW-8 section moves', 1)
+    # LW-9: the section-level operations are the lock-level ones applied to the section's own recorded version, and what they
+    # return is the lock's verdict; must_restart of section and guard is `lock == nullptr`
+    for nm in ('check', 'try_read_unlock'):
+        for f in _fn(cfg, RCS, nm):
+            res.count('LW-9 wrappers')
+            calls = [(b, i, e) for b, i, e in f.elements() if e.get('k') == 'call' and e.get('cls') == OL and e.get('name') == nm and not is_assert_elem(e)]
+            ok = len(calls) == 1
+            why = 'does not make exactly one call of optimistic_lock::%s' % nm
+            if ok:
+                b0, i0, c0 = calls[0]
+                a = f.strip_casts(c0['args'][0]) if c0.get('args') else None
+                while isinstance(a, dict) and a.get('k') == 'call' and a.get('ck') == 'ctor' and (a.get('copy') or a.get('move')) and a.get('args'):
+                    a = f.strip_casts(a['args'][0])
+                o = f.strip_casts(c0.get('obj'))
+                own_version = isinstance(a, dict) and a.get('k') == 'member' and a.get('name') == 'version' and isinstance(f.strip_casts(a.get('base')), dict) and f.strip_casts(a['base']).get('k') == 'this'
+                own_lock = isinstance(o, dict) and o.get('k') == 'member' and o.get('name') == 'lock'
+                # every return hands back the value of that call (through a local, __builtin_expect)
+                from .. import wsum
+                ci = wsum.const_inits(f)
+                rets_ok = True
+                nret = 0
+                for b, i, e in f.elements():
+                    if e.get('k') != 'return' or e.get('e') is None:
+                        continue
+                    nret += 1
+                    x, neg = f.strip_test(e['e'])
+                    x = f.resolve(x)
+                    d = 0
+                    while isinstance(x, dict) and x.get('k') == 'ref' and x.get('vk') == 'local' and x['did'] in ci and d < 4:
+                        x, n2 = f.strip_test(ci[x['did']])
+                        x = f.resolve(x)
+                        neg = neg != n2
+                        d += 1
+                    if neg or x is not c0:
+                        rets_ok = False
+                ok = own_version and own_lock and rets_ok and nret >= 1
+                why = 'does not pass its own recorded version' if not own_version else ('does not call through its own lock pointer' if not own_lock else 'does not return the verdict of the lock-level call')
+            res.ob(ok, {'rule': 'LW-9', 'function': sh(f.sig), 'fact': 'returns lock->%s(version)' % nm, 'verdict': 'discharged' if ok else 'VIOLATION'})
+            if not ok:
+                res.find(f, f.loc, 'read_critical_section::%s %s: the tree code takes its answer as "the node has not changed since this section was opened" - an answer that is not the comparison of THIS section\'s version with the current lock word lets torn reads through (or restarts for ever)' % (nm, why), key='LW-9:%s' % nm, config=cfg.name)
+    for cls_ in (RCS, WG):
+        for f in _fn(cfg, cls_, 'must_restart'):
+            res.count('LW-9 wrappers')
+            ex = _single_return_expr(f)
+            ok = False
+            if ex is not None:
+                x, neg = f.strip_test(ex)
+                x = f.resolve(x)
+                if isinstance(x, dict) and x.get('k') == 'binop' and x.get('op') in ('==', '!='):
+                    sides = [f.strip_casts(x['l']), f.strip_casts(x['r'])]
+                    has_null = any(isinstance(s_, dict) and s_.get('k') == 'nullptr' for s_ in sides)
+                    has_lock = any(isinstance(s_, dict) and s_.get('k') == 'member' and s_.get('name') == 'lock' for s_ in sides)
+                    ok = has_null and has_lock and ((x['op'] == '==') != neg)
+            res.ob(ok, {'rule': 'LW-9', 'function': sh(f.sig), 'fact': 'must_restart() is lock == nullptr', 'verdict': 'discharged' if ok else 'VIOLATION'})
+            if not ok:
+                res.find(f, f.loc, '%s::must_restart() is not `lock == nullptr`: a section opened on an obsolete lock / a guard whose upgrade failed would be taken for a valid one' % sh(cls_), key='LW-9:must_restart:' + sh(cls_)[-14:], config=cfg.name)
+    res.floor('LW-9 wrappers', 4)
     # the two unlock paths need an active guard: unlock()/unlock_and_obsolete() have a documented precondition (LOCK-4 checks call sites); the destructor tests lock != nullptr
     for f in _fn(cfg, WG, '~write_guard'):
         res.count('guard destructor')
